@@ -40,9 +40,9 @@ MANIFEST = {
     "note": "trusted: wwt_data_formats XML round trip; the URL-expansion convention",
     "technique": "deterministic simulation of call histories on one output directory (parallel stages under the seeded scheduler); model-based oracle: WTML expansion vs directory tree vs returned description",
 }
-BUDGET = {"quick": (150, 80), "thorough": (6000, 1500)}
+BUDGET = {"quick": (600, 80), "thorough": (6000, 1500)}
 REQUIRED_PROBES = {"quick": ["wf_tile_fits_tan", "wf_study", "history_reuse", "history_override"],
-                   "thorough": ["wf_tile_fits_tan", "wf_tile_fits_toast", "wf_study", "wf_allsky", "wf_pipeline", "wf_cli_study", "wf_cli_wwtl", "history_reuse", "history_override", "scheme_LXY"]}
+                   "thorough": ["wf_tile_fits_tan", "wf_tile_fits_toast", "toast_inputs_of_different_scale", "wf_study", "wf_allsky", "wf_pipeline", "wf_cli_study", "wf_cli_wwtl", "history_reuse", "history_override", "scheme_LXY"]}
 CHUNK = 3
 SELFTEST_EVERY = 30
 FRESH_SELFTEST = 3
@@ -329,6 +329,7 @@ def run_one(ch, env):
         if wf in ("tile_fits_tan", "tile_fits_toast"):
             toast_mode = wf == "tile_fits_toast"
             col = fitsgen.draw_collection(ch, max_images=1 if toast_mode else 3, sizes=(60, 200, 300) if toast_mode else (60, 200, 300, 520))
+            col.with_inf = False        # tile_fits cascades: FITS pyramids holding infinities make Builder.cascade raise (not a C17 matter)
             if toast_mode:
                 r0 = col.rects[0]
                 r0["r0"], r0["c0"], r0["h"], r0["w"] = col.R0, col.C0, max(col.H, 40), max(col.W, 40)
@@ -342,7 +343,29 @@ def run_one(ch, env):
                 col.theta = (0.0, 30.0)[ch.draw(2, kind="rot2")]
                 for r in col.rects:
                     r["border"] = min(r["border"], 1)
+                # one in three shallow TOAST histories has a second input with a much coarser pixel scale (toasty then
+                # has to settle on one level for the whole data set), in a drawn order, with the level left to toasty
+                multi_scale = (not deep) and ch.draw(2, kind="toast_multi_scale") == 1
+                if multi_scale:
+                    col.scale = 8.0 / 60
+                    r0["h"] = r0["w"] = col.H = col.W = 48
             fitsgen.write_collection(col, os.path.join(d, "in"))
+            if toast_mode and multi_scale:
+                from astropy.io import fits as _fits
+                from astropy.wcs import WCS as _WCS
+                w = _WCS(naxis=2)
+                w.wcs.ctype = ["RA---TAN", "DEC--TAN"]
+                w.wcs.crval = [col.ra, col.dec]
+                w.wcs.crpix = [20.5, 20.5]
+                coarse = (45.0, 20.0)[ch.draw(2, kind="coarse_scale")] / 60
+                w.wcs.cdelt = [-coarse, coarse]
+                w.wcs.cunit = ["deg", "deg"]
+                yy, xx = np.mgrid[0:40, 0:40]
+                wide = os.path.join(d, "in", "wide.fits")
+                _fits.PrimaryHDU(data=(1.0 + yy * 0.25 + xx / 64.0).astype(np.float32), header=w.to_header()).writeto(wide, overwrite=True)
+                col.paths = [wide] + col.paths if ch.draw(2, kind="coarse_first") else col.paths + [wide]
+                res["probes"]["toast_inputs_of_different_scale"] = 1
+                res["config"]["toast_multi_scale"] = {"coarse_deg_per_px": coarse, "coarse_first": col.paths[0] == wide}
             P = fitsgen.pasted_mosaic(col)
             if np.all(np.isnan(P)):
                 res["digest"] = "all-undefined"
@@ -388,6 +411,8 @@ def run_one(ch, env):
                     res["probes"]["history_override" if override else "history_reuse"] = 1
                 label = "tile_fits(%s, call %d of %d, override=%s, %d workers)" % ("TOAST" if toast_mode else "TAN", k + 1, nops, override, workers)
                 kw = {"start": 1 + ch.draw(2, kind="toast_start")} if (toast_mode and not deep) else {}
+                if toast_mode and multi_scale and k == 0 and ch.draw(3, kind="level_left_to_toasty") != 0:
+                    kw = {}
                 if k > 0 and toast_mode:
                     kw = dict(last_kw)
                 last_kw = dict(kw)
